@@ -206,6 +206,12 @@ Fault gen_store_fault(Rng &r, const FontImage &fi) {
         f.kind = "SETBYTES"; f.a = {4, i64(hdr >> 24), 5, i64((hdr >> 16) & 0xFF), 6, i64((hdr >> 8) & 0xFF), 7, i64(hdr & 0xFF)};
         return f;
     }
+    if (f.tag == "name" && t.size() >= 18 && r.chance(1, 3)) {
+        // one label's last UTF-16 unit becomes a lead surrogate: the string no longer validates, the label query must fail cleanly
+        unsigned cnt = be16(&t[2]); size_t so = be16(&t[4]); std::vector<size_t> cand;
+        for (unsigned i = 0; i < cnt && 6 + 12 * size_t(i) + 12 <= t.size(); ++i) { const u8 *e = &t[6 + 12 * i]; if (be16(e) == 3 && be16(e + 8) >= 2 && so + be16(e + 10) + be16(e + 8) <= t.size()) cand.push_back(so + be16(e + 10) + be16(e + 8) - 2); }
+        if (!cand.empty()) { size_t pos = cand[r.below(u32(cand.size()))]; f.kind = "SETBYTES"; f.a = {i64(pos), 0xD8, i64(pos + 1), i64(r.below(256))}; f.nth = -1; return f; }
+    }
     if ((f.tag == "head" || f.tag == "hhea" || f.tag == "maxp") && r.chance(1, 2)) {
         // the few fields of the metric tables the engine really reads: units per em, loca format, number of h-metrics, glyph count
         size_t off = f.tag == "head" ? (r.chance(2, 3) ? 18 : 50) : f.tag == "hhea" ? 34 : 4;
@@ -238,7 +244,7 @@ Fault gen_store_fault(Rng &r, const FontImage &fi) {
         std::vector<Range> rg; table_ranges(tag, t, rg);
         size_t cut = t.empty() ? 0 : r.below(u32(t.size()));
         if (!rg.empty() && r.chance(2, 3)) { const Range &g = rg[r.below(u32(rg.size()))]; cut = (r.chance(1, 2) ? g.hi : g.lo) + r.below(3); if (cut) cut -= 1; }
-        if (r.chance(1, 6)) cut = r.below(24);
+        if (r.chance(1, 3)) cut = r.below(24);     // tiny tables: the size tests of CheckTable and of each table's own reader
         f.a.push_back(i64(cut));
     } else if (k < 76) {
         f.kind = "TORN"; f.a.push_back(i64(aimed_offset(r, tag, t) & ~size_t(15))); f.a.push_back(16 << r.below(6)); f.a.push_back(r.below(3) ? 0 : 1 + r.below(12));
@@ -347,6 +353,24 @@ Fault gen_gid_fault(Rng &r, const FontImage &fi, const std::vector<u32> &cps) {
             }
         }
         done.clear();
+    }
+    return f;
+}
+
+// STATEROT: one FSM transition redirected (to its own state, to an earlier or to a random state): state tables with cycles,
+// which no compiler emits and the loader accepts as long as the target exists
+Fault gen_state_fault(Rng &r, const FontImage &fi) {
+    Fault f; f.kind = "SETBYTES"; f.tag = "Silf"; f.nth = -1;
+    auto it = fi.tables.find(mktag("Silf")); if (it == fi.tables.end()) return f;
+    std::vector<PassInfo> ps; silf_passes(it->second, ps);
+    std::vector<const PassInfo *> ok; for (auto &p : ps) if (p.st_hi > p.st_lo) ok.push_back(&p);
+    if (ok.empty()) return f;
+    unsigned n = 1 + r.below(3);
+    for (unsigned k = 0; k < n; ++k) {
+        const PassInfo &p = *ok[r.below(u32(ok.size()))];
+        size_t cells = (p.st_hi - p.st_lo) / 2; size_t cell = r.below(u32(cells)); unsigned row = unsigned(cell / p.ncols);
+        u32 c = r.below(4); unsigned tgt = c == 0 ? row : c == 1 ? (row ? r.below(row) : 0) : c == 2 ? r.below(p.nstates ? p.nstates : 1) : row + 1;
+        f.a.push_back(i64(p.st_lo + 2 * cell)); f.a.push_back(i64((tgt >> 8) & 0xFF)); f.a.push_back(i64(p.st_lo + 2 * cell + 1)); f.a.push_back(i64(tgt & 0xFF));
     }
     return f;
 }
